@@ -15,6 +15,7 @@ package rootmulti
 //@ ghost sub.idver (Array Iface Int)
 //@ ghost sub.idhash (Array Iface Slice)
 //@ ghost mp.calls Int
+//@ ghost mp.info $store/rootmulti.commitInfo
 //@ ghost mp.ver Int
 //@ ghost wb.latest Int
 //@ ghost wb.cinfo Int
@@ -85,6 +86,10 @@ package rootmulti
 //@ func (rs *Store) loadCommitStoreFromParams(key types.StoreKey, id types.CommitID, params storeParams) (store types.CommitStore, err error)
 //@   props C12 C13
 //@   may_panic
+// C13: a substore is loaded with the commit id the commit info looked up last names for its key (a store the commit info
+// does not list gets the zero id = start from the latest on disk): a caller that loses this association opens every
+// substore at whatever it saved last, which after an interrupted commit is a version the multistore never published (seed C13f)
+//@   requires [named-id] forall j int :: 0 <= j && j < len(mp.info.StoreInfos) && mp.info.StoreInfos[j].Name == sk_name(key) ==> id.Version == mp.info.StoreInfos[j].Core.CommitID.Version
 //@   modifies mdb.size, tree.cur
 //@   ensures [policy] params.typ == 2 && err == nil ==> unbox(store, "*store/iavl.Store").numRecent == rs.pruningOpts.keepRecent && unbox(store, "*store/iavl.Store").storeEvery == rs.pruningOpts.keepEvery
 //@   ensures [atversion@C13] params.typ == 2 && err == nil ==> tree.cur == id.Version
@@ -120,27 +125,47 @@ package rootmulti
 
 // ASSUMED (amino): the commit info stored under s/<ver> carries version ver
 // mp.calls counts the look-ups, mp.ver is the version asked for last
+// mp.info is the commit info handed out last (empty before the first look-up of the process); a commit info lists every
+// store name once (commitStores records one entry per mounted key)
 //@ assumed func getCommitInfo(db dbm.DB, ver int64) (ci commitInfo, err error)
-//@   modifies mp.calls, mp.ver
-//@   ensures mp.calls == old(mp.calls) + 1 && mp.ver == ver
+//@   modifies mp.calls, mp.ver, mp.info
+//@   ensures mp.calls == old(mp.calls) + 1 && mp.ver == ver && mp.info == ci
 //@   ensures err == nil ==> ci.Version == ver
+//@   ensures forall i int, j int :: 0 <= i && i < j && j < len(ci.StoreInfos) ==> ci.StoreInfos[i].Name != ci.StoreInfos[j].Name
 
 // C12: loading a version either succeeds - the store then reports exactly that version - or fails and leaves the
 // reported version and the mounted substores as they were (version 0 is the start-up path: substores are
 // installed one by one)
 //@ func (rs *Store) LoadVersion(ver int64) (err error)
-//@   props C12
+//@   props C12 C13
 //@   may_panic
 //@   modifies everything
-//@   loop 1 invariant rs.lastCommitID == old(rs.lastCommitID)
-//@   loop 2 invariant rs.lastCommitID == old(rs.lastCommitID) && rs.stores == old(rs.stores)
-//@   loop 3 invariant rs.lastCommitID == old(rs.lastCommitID) && rs.stores == old(rs.stores)
+// the start-up path (version 0) runs before any commit info was looked up; mount keys have distinct names
+//@   requires ver == 0 ==> len(mp.info.StoreInfos) == 0
+//@   requires forall k1 Iface, k2 Iface :: has(rs.storesParams, k1) && has(rs.storesParams, k2) && sk_name(k1) == sk_name(k2) ==> k1 == k2
+//@   loop 1 invariant rs.lastCommitID == old(rs.lastCommitID) && mp.info == old(mp.info) && rs.storesParams == old(rs.storesParams)
+//@   loop 2 invariant rs.lastCommitID == old(rs.lastCommitID) && rs.stores == old(rs.stores) && (forall k Iface :: has(rs.stores, k) == old(has(rs.stores, k)) && rs.stores[k] == old(rs.stores[k]))
+//@   loop 2 invariant mp.info == cInfo && rs.storesParams == old(rs.storesParams) && 0 - 1 <= #rangeindex && #rangeindex < len(cInfo.StoreInfos)
+//@   loop 2 invariant forall j int :: 0 <= j && j <= #rangeindex ==> (exists k Iface :: has(rs.storesParams, k) && sk_name(k) == cInfo.StoreInfos[j].Name && has(infos, k) && infos[k].Core.CommitID.Version == cInfo.StoreInfos[j].Core.CommitID.Version)
+//@   loop 3 invariant rs.lastCommitID == old(rs.lastCommitID) && rs.stores == old(rs.stores) && (forall k Iface :: has(rs.stores, k) == old(has(rs.stores, k)) && rs.stores[k] == old(rs.stores[k]))
+//@   loop 3 invariant mp.info == cInfo && rs.storesParams == old(rs.storesParams)
+//@   loop 3 invariant forall j int :: 0 <= j && j < len(cInfo.StoreInfos) ==> (exists k Iface :: has(rs.storesParams, k) && sk_name(k) == cInfo.StoreInfos[j].Name && has(infos, k) && infos[k].Core.CommitID.Version == cInfo.StoreInfos[j].Core.CommitID.Version)
 //@   ensures [failed] err != nil ==> rs.lastCommitID == old(rs.lastCommitID)
-//@   ensures [failed-stores] err != nil && ver != 0 ==> rs.stores == old(rs.stores)
+// all-or-nothing: a load that fails part-way has replaced NO mounted substore (seed C12h wrote them in place)
+//@   ensures [failed-stores] err != nil && ver != 0 ==> rs.stores == old(rs.stores) && (forall k Iface :: has(rs.stores, k) == old(has(rs.stores, k)) && rs.stores[k] == old(rs.stores[k]))
 //@   ensures [loaded] err == nil ==> rs.lastCommitID.Version == ver
 
+
+// ---------------------------------------------------------------- loading a version (C12 / C13)
+// ld.ver[k]: the version the substore mounted under key k was last asked to load; mp.info: the commit info looked up last
+
+//@ ghost ld.ver (Array Iface Int)
+
+// the mounted key with that name (mount keys have distinct names: MountStoreWithDB refuses duplicates)
 //@ func (rs *Store) nameToKey(name string) (r types.StoreKey)
-//@   props C12
-//@   may_panic
-//@   loop 1 invariant true
-//@   ensures true
+//@   props C12 C13
+//@   panics_declared
+//@   panics when !(exists k Iface :: has(rs.storesParams, k) && sk_name(k) == name)
+//@   loop 1 invariant 0 <= iterpos(1) && iterpos(1) <= iterlen(1)
+//@   loop 1 invariant forall k Iface :: has(rs.storesParams, k) && iteridx(1, k) < iterpos(1) ==> sk_name(k) != name
+//@   ensures has(rs.storesParams, r) && sk_name(r) == name
